@@ -147,7 +147,7 @@ class _SimIter:
             if w.remote is None:
                 assert sim.worker_factory is not None
                 w.remote = sim.worker_factory()
-                w.remote.call("pool_init", init=ForkingPickler.dumps(self.pool.initializer))
+                w.remote.call("pool_init", init=bytes(ForkingPickler.dumps(self.pool.initializer)))
             return w.remote.call("pool_task", blob=bytes(blob))["blob"]
 
         # in-process: own Context per worker, real pickle round trip
@@ -234,6 +234,7 @@ class _SimIter:
             elif kind == "FINISH":
                 w = pool.workers[ev[1]]
                 sim.clock = max(sim.clock, w.until)
+                sim.stats["clock"] = sim.clock
                 assert w.result is not None
                 self.outbox.append((w.task_no, w.result))
                 sim.log(["pool", "FINISH", w.idx, w.task_no, sim.clock])
